@@ -1,19 +1,18 @@
 SPECIFICATION Spec
 CONSTANTS
-  C = {1, 2, 3}
-  K = {1}
-  T = {1}
+  C = {1, 2}
+  K = {1, 2}
+  T = {1, 2}
   MaxE = 4
   MaxG = 4
   MaxOps = 7
   Limit = 0
   FixSave = TRUE
   FixRecover = TRUE
-  FixRelease = FALSE
-  SplitCleanup = FALSE
+  FixRelease = TRUE
+  SplitCleanup = TRUE
 VIEW View
 INVARIANT AccountedEqualsLive
 INVARIANT Coherent
 INVARIANT LiveCachesManaged
 INVARIANT NoPoison
-PROPERTY CleanupBoundsSize
